@@ -184,6 +184,34 @@ func (d *cliDriver) oneCase(seed int64, id int) {
 		}
 		item.dst = filepath.Join(e.destBase, item.name, "d.wsp")
 		item.dcfg = cfg
+		if k >= 3 && rnd.Intn(3) == 0 && (d.prop == "C08" || d.prop == "C11") {
+			// directed tree: source and destination agree in the coarsest archive on a value that is NOT the aggregate of
+			// the finer archives, and differ in the finest one (a copy's own propagation then rewrites matching slots)
+			for _, p := range item.srcs {
+				os.Remove(p)
+			}
+			item.srcs = item.srcs[:1]
+			createFile(item.srcs[0], cfg)
+			createFile(item.dst, cfg)
+			t := now - rnd.Int63n(lay[0].Step*lay[0].N)
+			x := float64((1+rnd.Int63n(9))*unit) * mp.Scale
+			for fi, p := range []string{item.srcs[0], item.dst} {
+				db, err := wt.Open(p)
+				if err != nil {
+					panic(err)
+				}
+				v := x
+				if fi == 1 {
+					v = 2 * x
+				}
+				db.UpdatePointForArchive(0, wt.Timestamp(mp.B+t), wt.Value(v), wt.Timestamp(mp.B+now))
+				db.UpdatePointForArchive(k-1, wt.Timestamp(mp.B+t), wt.Value(3*x), wt.Timestamp(mp.B+now))
+				db.Sync()
+				db.Close()
+			}
+			items = append(items, item)
+			continue
+		}
 		switch rnd.Intn(6) {
 		case 0: // absent
 		case 1: // different layout
